@@ -63,7 +63,8 @@ def _gen_program_once(rng, *, futures, hooks, max_pre):
     hook_ids = [0]
     fut_names = [f"f{i}" for i in range(rng.randrange(1, 9))] if futures else []
     awaited: set[str] = set()
-    in_combinators: set[str] = set()  # names used only as combinator inputs: may be shared between combinators
+    in_combinators: set[str] = set()  # names used as combinator inputs: may be shared between combinators
+    direct: set[str] = set()  # names yielded directly by a process
     value_ids = [100]
     delays = DELAYS_C02 if futures else DELAYS
 
@@ -72,10 +73,17 @@ def _gen_program_once(rng, *, futures, hooks, max_pre):
         return value_ids[0]
 
     def fexpr(depth=0):
+        # a future may be yielded directly by one process only, but be an input of any number of combinators
+        # (also while a process is parked on it: a worker waits on `done`, a watchdog on any_of(done, abort))
         free = [f for f in fut_names if f not in awaited]
-        if depth > 0 and in_combinators and rng.random() < 0.35:
-            # the same future as input of a second combinator (shared deadline / shutdown future)
-            return rng.choice(sorted(in_combinators))
+        if depth > 0 and (in_combinators or direct) and rng.random() < 0.5:
+            f = rng.choice(sorted(in_combinators | direct))
+            in_combinators.add(f)
+            return f
+        if depth == 0 and in_combinators - direct and rng.random() < 0.5:
+            f = rng.choice(sorted(in_combinators - direct))
+            direct.add(f)
+            return f
         if not free:
             return None
         if depth < 3 and len(free) >= 2 and rng.random() < 0.45:
@@ -95,6 +103,8 @@ def _gen_program_once(rng, *, futures, hooks, max_pre):
         awaited.add(f)
         if depth > 0:
             in_combinators.add(f)
+        else:
+            direct.add(f)
         return f
 
     def body(ti, depth=0):
